@@ -3,13 +3,33 @@ import Tahoe.Base.LemmasMerkleOrder
 import Tahoe.Base.LemmasMerkleClosed
 import Tahoe.Base.LemmasMerkleBuild
 import Tahoe.Base.LemmasMerkleStray
+import Tahoe.Base.LemmasMerkleMinimal
 /-! C35 — Merkle hash trees accept only genuine leaves (hashtree.py `IncompleteHashTree.set_hashes`).
+
+## Coverage of the statement (properties.jsonl C35)
+
+| clause of the statement | theorems (model `Tahoe.Base.Merkle`) |
+|---|---|
+| "a partially populated hash tree seeded with a trusted root accepts a leaf value only if it equals that leaf in the tree that produced the root" | `sound`, `accepted_leaf_genuine` (natural keys); `sound_any_batch` (arbitrary Python-int keys); "the tree that produced the root" = any `Genuine` tree, and `hashtree_is_genuine` shows `HashTree(L)` is one (padding included) |
+| "whatever auxiliary hashes an adversary supplies" | the batch is universally quantified in all of the above: any values of the abstract hash type (any length — `pair` is only assumed injective), any node numbers incl. stray / negative / too large and any dict order (`sound_any_batch`, `rollback_any_batch`); hypothesis `PairInjective` (collision-freeness) |
+| "it always accepts the genuine hashes it asked for" | `needed_hashes_accepted` (exactly `needed_hashes(leaf)` answered from `T` + the genuine leaf, model function `validateLeaf`), `needed_hashes_accepted_hashtree` (every list of leaves of every length, every leaf slot incl. padding), `complete` / `complete_int_keys` (any genuine superset on the chain); the tree-shape hypotheses `Closed` are invariants: `closed_preserved`, `new_tree_closed`; that nothing less would do: `needed_hashes_minimal` (with `sib_closed_preserved`, `new_tree_sib_closed`) |
+| "in any validation order" | every theorem is for an arbitrary `pick` (the `set.pop()` oracle); `order_irrelevant`, `order_irrelevant_int_keys`: accept/reject and the accepted list do not depend on it |
+| "and leaves its state unchanged when it rejects an input" | `rollback` (natural keys, per exception class), `rollback_any_batch` (arbitrary int keys: every batch that is not accepted) |
+| the code as it was before the repair | `sound_counterexample_falsy_root`, `rollback_counterexample_falsy_leaf`, `rollback_counterexample_index_error` (`Cfg.asIs`) |
+
+Not covered by a theorem (correspondence / monitor only): that `pair_hash` / `empty_leaf_hash` are the SHA-256d
+tagged hashes and are collision-free (hypothesis); exceptions other than BadHashError / NotEnoughHashesError /
+IndexError (the monitor requires the tree unchanged after any exception type); which of the three exception
+classes is raised for a batch with a red-dotted negative key (order dependent, left open as
+`BatchOutcome.unvalidatable`); `complete`-type statements for batches that also carry genuine values *off* the
+chain (they may legitimately be rejected with NotEnoughHashesError).
 
 Vocabulary (Tahoe/Base/Merkle.lean): `Genuine ops T` — `T` is a fully populated Merkle tree; `Agree t T` — the
 partial tree `t` equals `T` wherever populated; `PairInjective ops` — the pair hash is collision-free;
 `StrictPresence ops cfg` — the `if self[i]:` test never takes a stored hash for `None` (the repaired code, or
-the code as it is over hashes that are never `b""`); `pick` — the order in which `set.pop()` hands out the
-red-dotted nodes of a level (any function). Helper lemmas: Tahoe/Base/LemmasMerkle*.lean. -/
+the code as it is over hashes that are never `b""`); `Closed` / `SibClosed` — node and sibling known ⇒ parent
+known / known non-root node ⇒ sibling known (both invariants of successful calls); `pick` — the order in which
+`set.pop()` hands out the red-dotted nodes of a level (any function). Helper lemmas: Tahoe/Base/LemmasMerkle*.lean. -/
 namespace Tahoe.C35
 open Tahoe.Base.Merkle
 
@@ -71,46 +91,8 @@ theorem complete (ops : HashOps H) (cfg : Cfg) (hstrict : StrictPresence ops cfg
     (hgen : ∀ i w, (i, w) ∈ hashes → get T i = some w)
     (hkeys : ∀ i w, (i, w) ∈ hashes → i ∈ neededFor (first + k))
     (hcov : ∀ i, i ∈ neededHashes t (first + k) → ∃ w, (i, w) ∈ hashes) :
-    ∃ t', setHashes ops cfg pick first t hashes [(k, v)] = (.ok, t') := by
-  -- new_hashes: `hashes`, with the leaf appended unless it is already there with the same value
-  have hmerge : ∃ new, mergeLeaves first hashes [(k, v)] = some new ∧
-      (∀ i w, (i, w) ∈ new → (i, w) ∈ hashes ∨ (i = first + k ∧ w = v)) ∧
-      (∀ x ∈ hashes, x ∈ new) ∧ (first + k, v) ∈ new := by
-    unfold mergeLeaves
-    cases hl : hashes.lookup (first + k) with
-    | some w =>
-      have hm := mem_of_lookup _ _ _ hl
-      have := hgen _ _ hm
-      rw [hv] at this; injection this with this; subst this
-      refine ⟨hashes, by simp [mergeLeaves], fun i w h => Or.inl h, fun x h => h, hm⟩
-    | none =>
-      refine ⟨hashes ++ [(first + k, v)], by simp [mergeLeaves], ?_, fun x h => List.mem_append_left _ h,
-        List.mem_append_right _ (List.mem_singleton.mpr rfl)⟩
-      intro i w h
-      rcases List.mem_append.mp h with h | h
-      · exact Or.inl h
-      · have := List.mem_singleton.mp h; injection this with e1 e2; exact Or.inr ⟨e1, e2⟩
-  obtain ⟨new, hm, hsub, hsup, hleaf⟩ := hmerge
-  obtain ⟨st1, h1⟩ := tryBody_complete (ops := ops.withCfg cfg) hstrict
-    (T := T) ⟨hT.odd, hT.full, hT.node⟩ hlen hagree hclosed (first + k) hL pick new
-    (by
-      intro i w h
-      rcases hsub i w h with h | ⟨e1, e2⟩
-      · exact hgen i w h
-      · rw [e1, e2]; exact hv)
-    (by
-      intro i w h
-      rcases hsub i w h with h | ⟨e1, _⟩
-      · exact Or.inl (hkeys i w h)
-      · exact Or.inr e1)
-    (by
-      intro i hi hg
-      have : i ∈ neededHashes t (first + k) := by
-        unfold neededHashes; simp [hi, hg]
-      obtain ⟨w, hw⟩ := hcov i this
-      exact ⟨w, hsup _ hw⟩)
-    ⟨v, hleaf⟩
-  exact ⟨st1.t, setHashes_ok_of hm h1⟩
+    ∃ t', setHashes ops cfg pick first t hashes [(k, v)] = (.ok, t') :=
+  setHashes_complete ops cfg hstrict T t hT hlen hagree hclosed pick first k hL v hv hashes hgen hkeys hcov
 
 /-- the `Closed` hypothesis of `complete` is an invariant: a fresh `IncompleteHashTree` is closed and every
     successful `set_hashes` keeps the tree closed (a rejected one restores it, by `rollback`). -/
@@ -135,6 +117,68 @@ theorem hashtree_is_genuine (ops : HashOps H) (L : List H) :
     (∀ k, L.length ≤ k → k < roundupPow2 L.length →
       Base.Merkle.get (build ops L) (firstLeafNum L.length + k) = some (ops.emptyLeaf k)) :=
   ⟨build_genuine ops L, build_leaf ops L, build_padding ops L⟩
+
+/-! ### `needed_hashes`: what the tree asks for is enough, and nothing less is -/
+
+/-- **needed_hashes_accepted**: ask `needed_hashes(k)`, answer with the genuine tree's values and the genuine
+    leaf (`validateLeaf`): `set_hashes` accepts, for every pop order — on any closed tree agreeing with `T`. -/
+theorem needed_hashes_accepted (ops : HashOps H) (cfg : Cfg) (hstrict : StrictPresence ops cfg)
+    (T t : Tree H) (hT : Genuine ops T) (hlen : t.length = T.length) (hagree : Agree t T)
+    (hclosed : Closed t) (pick : List Nat → Nat) (first k : Nat) (hL : first + k < t.length) :
+    ∃ batch t', validateLeaf ops cfg pick first t T k = some (batch, .ok, t') ∧
+      batch = genuineBatch T (neededHashes t (first + k)) :=
+  validateLeaf_ok ops cfg hstrict T t hT hlen hagree hclosed pick first k hL
+
+/-- … in particular for the tree `HashTree(L)` of any list of leaves (any length, so with padding), any leaf
+    slot `k < roundup_pow2(len(L))` and any partial tree of the right size (e.g. a fresh
+    `IncompleteHashTree(len(L))` seeded with the root, or what earlier validations left). -/
+theorem needed_hashes_accepted_hashtree (ops : HashOps H) (cfg : Cfg) (hstrict : StrictPresence ops cfg)
+    (L : List H) (t : Tree H) (hlen : t.length = (build ops L).length) (hagree : Agree t (build ops L))
+    (hclosed : Closed t) (pick : List Nat → Nat) (k : Nat) (hk : k < roundupPow2 L.length) :
+    ∃ batch t', validateLeaf ops cfg pick (firstLeafNum L.length) t (build ops L) k = some (batch, .ok, t') := by
+  have hl := build_length ops L
+  obtain ⟨b, t', h, _⟩ := needed_hashes_accepted ops cfg hstrict (build ops L) t (build_genuine ops L) hlen hagree
+    hclosed pick (firstLeafNum L.length) k (by unfold firstLeafNum; omega)
+  exact ⟨b, t', h⟩
+
+/-- **needed_hashes_minimal**: on a tree built by successful calls (`Closed`, `SibClosed`), a batch confined to
+    the chain of leaf `k` that leaves out one of the nodes `needed_hashes(k)` asks for is never accepted —
+    whatever values it carries, whatever the pop order. (A node that is already known is not asked for; a batch
+    may of course replace a missing node by hashes *below* it, which is why it is confined to the chain.) -/
+theorem needed_hashes_minimal (ops : HashOps H) (cfg : Cfg) (hstrict : StrictPresence ops cfg)
+    (t : Tree H) (hclosed : Closed t) (hsib : SibClosed t) (pick : List Nat → Nat) (first k : Nat)
+    (j : Nat) (hj : j ∈ neededHashes t (first + k)) (v : H) (hashes : List (Nat × H))
+    (hkeys : ∀ i w, (i, w) ∈ hashes → i ∈ neededFor (first + k)) (hdrop : ∀ w, (j, w) ∉ hashes) :
+    (setHashes ops cfg pick first t hashes [(k, v)]).1 ≠ .ok :=
+  setHashes_minimal ops cfg hstrict t hclosed hsib pick first k j hj v hashes hkeys hdrop
+
+/-- `SibClosed` is an invariant (as `Closed` is) -/
+theorem sib_closed_preserved (ops : HashOps H) (cfg : Cfg) (hstrict : StrictPresence ops cfg)
+    (pick : List Nat → Nat) (first : Nat) (t : Tree H) (hashes leaves : List (Nat × H)) (t' : Tree H)
+    (hsib : SibClosed t) (h : setHashes ops cfg pick first t hashes leaves = (.ok, t')) : SibClosed t' := by
+  obtain ⟨new, st, _, hres, ht'⟩ := setHashes_ok h
+  rw [← ht']
+  exact tryBody_sibClosed (ops := ops.withCfg cfg) hstrict pick t new hsib hres
+
+omit [DecidableEq H] in
+theorem new_tree_sib_closed (n : Nat) : SibClosed (newTree H n) := newTree_sibClosed n
+
+/-- leaf 2 of a 3-leaf (padded to 4) tree holding only its root: the request is `{6: e3, 1: P(a0,a1)}`; it is
+    accepted; without node 1, or without node 6, it is not -/
+example :
+    let T : Tree Sym := build symOps [Sym.atom 0, Sym.atom 1, Sym.atom 2]
+    let t : Tree Sym := [Base.Merkle.get T 0, none, none, none, none, none, none]
+    (validateLeaf symOps Cfg.repaired (fun _ => 0) 3 t T 2).map (fun r => (r.1, r.2.1)) =
+      some ([(6, Sym.emptyLeaf 3), (1, Sym.pair (Sym.atom 0) (Sym.atom 1))], .ok) ∧
+    (setHashes symOps Cfg.repaired (fun _ => 0) 3 t [(6, Sym.emptyLeaf 3)] [(2, Sym.atom 2)]).1 = .notEnough ∧
+    (setHashes symOps Cfg.repaired (fun _ => 0) 3 t [(1, Sym.pair (Sym.atom 0) (Sym.atom 1))] [(2, Sym.atom 2)]).1
+      = .notEnough ∧
+    Closed t ∧ SibClosed t := by
+  intro T t
+  have ht : t = Base.Merkle.get T 0 :: List.replicate 6 none := rfl
+  refine ⟨by decide, by decide, by decide, ?_, ?_⟩
+  · rw [ht]; exact (rootOnly_closed _ 6).1
+  · rw [ht]; exact (rootOnly_closed _ 6).2
 
 /-- **order_irrelevant**: whether `set_hashes` accepts does not depend on the order in which `set.pop()`
     hands out the red-dotted nodes, and when it accepts the resulting list is the same.  (When it rejects the
@@ -187,6 +231,37 @@ theorem int_keys_conservative (ops : HashOps H) (cfg : Cfg) (pick : List Nat →
     setHashesZ ops cfg pick first t (castKeys hashes) (castKeys leaves) =
       (toBatch (setHashes ops cfg pick first t hashes leaves).1, (setHashes ops cfg pick first t hashes leaves).2) :=
   setHashesZ_castKeys ops cfg pick first t hashes leaves
+
+/-- **complete, int keys**: `complete` stated directly for a batch with Python-int keys -/
+theorem complete_int_keys (ops : HashOps H) (cfg : Cfg) (hstrict : StrictPresence ops cfg)
+    (T t : Tree H) (hT : Genuine ops T) (hlen : t.length = T.length) (hagree : Agree t T)
+    (hclosed : Closed t) (pick : List Nat → Nat) (first k : Nat) (hL : first + k < t.length)
+    (v : H) (hv : Base.Merkle.get T (first + k) = some v) (hashes : List (Int × H))
+    (hgen : ∀ i w, (i, w) ∈ hashes → 0 ≤ i ∧ Base.Merkle.get T i.toNat = some w ∧ i.toNat ∈ neededFor (first + k))
+    (hcov : ∀ i, i ∈ neededHashes t (first + k) → ∃ w, ((i : Int), w) ∈ hashes) :
+    ∃ t', setHashesZ ops cfg pick first t hashes [((k : Int), v)] = (.ok, t') :=
+  setHashesZ_complete ops cfg hstrict T t hT hlen hagree hclosed pick first k hL v hv hashes hgen hcov
+
+/-- **order_irrelevant, int keys**: for a batch with arbitrary int keys (stray ones included) accept/reject and
+    the accepted list do not depend on the pop order; a batch that is not accepted leaves the input list under
+    every order (`rollback_any_batch`). -/
+theorem order_irrelevant_int_keys (ops : HashOps H) (cfg : Cfg) (hstrict : StrictPresence ops cfg)
+    (pick1 pick2 : List Nat → Nat) (first : Nat) (t : Tree H) (hashes leaves : List (Int × H)) :
+    ((setHashesZ ops cfg pick1 first t hashes leaves).1 = .ok ↔
+      (setHashesZ ops cfg pick2 first t hashes leaves).1 = .ok) ∧
+    ((setHashesZ ops cfg pick1 first t hashes leaves).1 = .ok →
+      setHashesZ ops cfg pick2 first t hashes leaves = setHashesZ ops cfg pick1 first t hashes leaves) := by
+  refine ⟨⟨fun h => ?_, fun h => ?_⟩, setHashesZ_order hstrict pick1 pick2 first t hashes leaves⟩
+  · rw [setHashesZ_order hstrict pick1 pick2 first t hashes leaves h]; exact h
+  · rw [setHashesZ_order hstrict pick2 pick1 first t hashes leaves h]; exact h
+
+/-- an int-key batch: genuine chain for leaf 0 of a 2-leaf tree, accepted under two different pop orders -/
+example :
+    let t : Tree Sym := [some (Sym.pair (Sym.atom 0) (Sym.atom 1)), none, none]
+    setHashesZ symOps Cfg.repaired (fun _ => 1) 1 t [(2, Sym.atom 1)] [(0, Sym.atom 0)] =
+      (.ok, [some (Sym.pair (Sym.atom 0) (Sym.atom 1)), some (Sym.atom 0), some (Sym.atom 1)]) ∧
+    setHashesZ symOps Cfg.repaired (fun _ => 2) 1 t [(2, Sym.atom 1)] [(0, Sym.atom 0)] =
+      setHashesZ symOps Cfg.repaired (fun _ => 1) 1 t [(2, Sym.atom 1)] [(0, Sym.atom 0)] := by decide
 
 /-- stray keys on a two-leaf tree holding its root: a forged node followed by `-1` (aliases the empty last
     slot), `-1` first, a key beyond the tree, a negative key below `-len`, a negative leaf number — all
